@@ -237,6 +237,6 @@ PROPS = {
         "modelled": ["WaitSlot::{register_current_thread, notify, wait_while} (src/scheduler/wait.rs); park/unpark by the token contract of std::thread; no timeout in the model"],
         "assumptions": ["std::thread::park/unpark token semantics", "producers write the condition before notify: part of the model (nPublish before nStep); the call sites in validate, the finality loop and cancel are exercised by the e2e stall detection, where a notify issued before its condition is published deadlocks the emulated park"],
         "partial": ["the 8 s STALL_TIMEOUT safety net is deliberately absent from model and harness: the property is that it is never needed"],
-        "explanation": "Theorems no_lost_wakeup and wakeup_within_two_steps over all interleavings of one waiter and any number of producers.",
+        "explanation": "Theorems no_lost_wakeup, wakeup_within_two_steps and quiescent_implies_done (deadlock freedom: with the condition set, a reachable state in which neither the waiter nor a pending notify can step has the waiter returned) over all interleavings of one waiter and any number of producers; ready_changes_only_by_publish, waiter_blocked_only_at_park.",
     },
 }
